@@ -73,7 +73,13 @@ HexS == "0123456789abcdef"
 HexVal(c) == IF In(c, DigitsS) THEN (CHOOSE d \in 0..9 : SubSeq(DigitsS, d + 1, d + 1) = c)
              ELSE IF In(c, "abcdef") THEN 9 + (CHOOSE d \in 1..6 : SubSeq("abcdef", d, d) = c)
              ELSE IF In(c, "ABCDEF") THEN 9 + (CHOOSE d \in 1..6 : SubSeq("ABCDEF", d, d) = c) ELSE -1
-Chr(n) == IF n = 10 THEN "\n" ELSE IF n = 9 THEN "\t" ELSE IF n >= 32 /\ n <= 126 THEN SubSeq(Printable, n - 31, n - 31) ELSE ""
+\* one byte of a string value; bytes outside printable ASCII are spelled {XX}, as the harness spells the observed value (asciiSafe)
+HexU == "0123456789ABCDEF"
+ByteS(n) == "{" \o SubSeq(HexU, (n \div 16) + 1, (n \div 16) + 1) \o SubSeq(HexU, (n % 16) + 1, (n % 16) + 1) \o "}"
+Chr(n) == IF n = 10 THEN "\n" ELSE IF n = 9 THEN "\t" ELSE IF n = 13 THEN "\r" ELSE IF n >= 32 /\ n <= 126 THEN SubSeq(Printable, n - 31, n - 31)
+          ELSE IF n >= 0 /\ n <= 255 THEN ByteS(n) ELSE ""
+\* a code point below 256 as UTF-8: one byte below 128, else two bytes; U+00E9 is the harness's two-byte letter, spelled "~"
+Rune(n) == IF n < 128 THEN Chr(n) ELSE IF n = 233 THEN "~" ELSE ByteS(192 + (n \div 64)) \o ByteS(128 + (n % 64))
 \* One escape sequence starting at the backslash at i: <<value, length>>, length 0 = invalid.  Go's rules for
 \* interpreted string literals, restricted to results in the ASCII range the model can represent.
 Escape(i) ==
@@ -86,8 +92,7 @@ Escape(i) ==
           /\ Chr(64 * HexVal(e) + 8 * HexVal(C(i + 2)) + HexVal(C(i + 3))) # ""
        THEN <<Chr(64 * HexVal(e) + 8 * HexVal(C(i + 2)) + HexVal(C(i + 3))), 4>>
   ELSE IF e = "u" /\ C(i + 2) = "0" /\ C(i + 3) = "0" /\ HexVal(C(i + 4)) >= 0 /\ HexVal(C(i + 5)) >= 0
-          /\ Chr(16 * HexVal(C(i + 4)) + HexVal(C(i + 5))) # ""
-       THEN <<Chr(16 * HexVal(C(i + 4)) + HexVal(C(i + 5))), 6>>
+       THEN <<Rune(16 * HexVal(C(i + 4)) + HexVal(C(i + 5))), 6>>
   ELSE <<"", 0>>
 RECURSIVE ScanStr(_, _, _)          \* interpreted string body from i: <<value, index of the closing quote or 0, saw a line end>>
 ScanStr(i, acc, nl) ==
